@@ -176,10 +176,21 @@ def from_nested(data, dtype=None):
         return new_arr((), lambda idx: v, dtype or scalar_dtype(v))
     if isinstance(data, SeqVal):
         r = data.reader()
-        probe = r(0)
+        # the element kind is probed at an arbitrary valid position in a scratch state: nothing the probe allocates, assumes
+        # or requires (index bounds of the element function) stays behind
+        from .state import use_state
+        st0 = cur()
+        mark = len(st0.side)
+        scratch = st0.fork()
+        with use_state(scratch):
+            q = sv.fresh_int("sq")
+            scratch.assume(sv.and_(sv.cmp(">=", q, 0), sv.cmp("<", q, data.length)))
+            probe = r(q)
+            eshape = tuple(probe.shape) if isinstance(probe, Arr) else None
+            pdt = probe.dtype if isinstance(probe, Arr) else (scalar_dtype(probe) if sv.is_scalar(probe) else None)
+        del st0.side[mark:]
         if isinstance(probe, Arr):
             # sequence of equally shaped arrays (np.array(list of arrays)): stacked along a new leading axis
-            eshape = tuple(probe.shape)
 
             def fn(idx, r=r, eshape=eshape):
                 e = r(idx[0])
@@ -188,13 +199,12 @@ def from_nested(data, dtype=None):
                 for x, y in zip(e.shape, eshape):
                     require_dim_eq(x, y, "stack-shape")
                 return e.get(tuple(idx[1:]))
-            return new_arr((data.length,) + eshape, fn, dtype or probe.dtype)
+            return new_arr((data.length,) + eshape, fn, dtype or pdt)
         if dtype is None:
             # element type of a symbolic-length python list: that of its element at an arbitrary position
-            pr = r(sv.fresh_int("sq"))
-            if not sv.is_scalar(pr):
+            if pdt is None:
                 raise EngineError("np.array of a symbolic-length list of non-scalars")
-            dtype = scalar_dtype(pr)
+            dtype = pdt
             if dtype == "object":
                 raise EngineError("np.array of a symbolic-length list of objects")
         return new_arr((data.length,), lambda idx: r(idx[0]), dtype)
